@@ -82,7 +82,9 @@ func mkShared(q uint, tables bool) *shared {
 		panic(err)
 	}
 	for i := uint(0); i < 5; i++ {
-		s.ops = append(s.ops, f.ElementFromUnsigned(i+1).Times(f.MultGenerator()))
+		// no MultGenerator() here: the set-up must not warm anything that the goroutines' FIRST calls could write
+		// (seeded change C20-R7b: the generator memoised in the shared Field)
+		s.ops = append(s.ops, f.ElementFromUnsigned(i+1).Times(f.ElementFromUnsigned(i+2)))
 	}
 	s.upoly = s.ur.PolynomialFromUnsigned([]uint{3, 1, 4, 1, 5})
 	s.bpoly = s.br.PolynomialFromUnsigned(map[[2]uint]uint{{1, 2}: 3, {2, 1}: 1, {0, 0}: 2})
@@ -117,6 +119,10 @@ func work(s *shared, seed int64, iters int) string {
 			sb.WriteString(e.String())
 		}
 		_ = f.RandElement()
+		if it%4 == 0 {
+			// the first calls of MultGenerator on the shared field come from the goroutines
+			sb.WriteString(c.Times(f.MultGenerator()).String())
+		}
 		if it%8 == 0 && f.Card() <= 64 {
 			sb.WriteString(strconv.Itoa(len(f.Elements())))
 		}
